@@ -91,7 +91,11 @@ func (x *Exec) callWithArgs(fr *frame, cc *ssa.CallCommon, fnv sval, args []sval
 	if ct != nil && !ct.Inline {
 		return x.applyContract(fr, ct, callee, allArgs, argTypes, sig, st, reach, pos, key, fnv)
 	}
-	if callee != nil && len(callee.Blocks) > 0 && fr.depth < maxInlineDepth && !x.onStack(callee) && inRepoFn(callee) {
+	maxD, maxB := maxInlineDepth, 60
+	if x.sweep {
+		maxD, maxB = 2, 12 // zero-annotation sweep: only small helpers are inlined
+	}
+	if callee != nil && len(callee.Blocks) > 0 && len(callee.Blocks) <= maxB && fr.depth < maxD && !x.onStack(callee) && inRepoFn(callee) {
 		return x.inline(fr, callee, fnv, allArgs, st, reach)
 	}
 	// no contract and not inlinable
@@ -394,7 +398,7 @@ func (x *Exec) applyContract(fr *frame, ct *Contract, callee *ssa.Function, args
 	}
 	// 2. havoc what the callee may write
 	var ws *WriteSet
-	if ct.Havoc {
+	if ct.Havoc || hasStar(ct.Modifies) {
 		ws = &WriteSet{Top: true}
 	} else if callee != nil && len(callee.Blocks) > 0 && !ct.Assumed {
 		ws = x.eng.writeSet(callee)
@@ -443,6 +447,15 @@ func (x *Exec) applyContract(fr *frame, ct *Contract, callee *ssa.Function, args
 	return res, nst
 }
 
+func hasStar(mods []string) bool {
+	for _, m := range mods {
+		if strings.TrimSpace(m) == "*" {
+			return true
+		}
+	}
+	return false
+}
+
 func shortKey(key string) string {
 	key = strings.ReplaceAll(key, "github.com/cosmos/iavl/", "")
 	key = strings.ReplaceAll(key, "github.com/cosmos/iavl.", "")
@@ -469,7 +482,7 @@ func (x *Exec) parseModifies(ct *Contract, env *Env) []modLoc {
 	}
 	for _, m := range ct.Modifies {
 		m = strings.TrimSpace(m)
-		if m == "" {
+		if m == "" || m == "*" {
 			continue
 		}
 		// raw component: comp:NAME
@@ -726,7 +739,7 @@ func (x *Exec) frameCasesOnly(ct *Contract, posts []*Env, st0 *State, only strin
 
 // frameCases checks the function's frame at every return site.
 func (x *Exec) frameCases(ct *Contract, posts []*Env, st0 *State) {
-	if len(posts) == 0 {
+	if len(posts) == 0 || hasStar(ct.Modifies) {
 		return
 	}
 	locs := x.parseModifies(ct, posts[0])
@@ -904,6 +917,10 @@ func (e *Engine) contractWrites(x *Exec, ct *Contract) *WriteSet {
 	pkg := e.pkgOfKey(ct.Key)
 	for _, m := range ct.Modifies {
 		m = strings.TrimSpace(m)
+		if m == "*" {
+			ws.Top = true
+			continue
+		}
 		if strings.HasPrefix(m, "comp:") {
 			ws.add(strings.TrimPrefix(m, "comp:"))
 			continue
